@@ -78,6 +78,15 @@ P = {
          "and EXDEV); each scenario replayed on the real functions for 4 sizes; verdicts only from the statement (content of source / "
          "destination vs. the snapshot), differences to the predicted tree are reported as drift",
          "mid-copy I/O faults cannot be injected into the real call; second file system must exist (else skipped and counted)", "5/C18"),
+
+ "C03": ("spec/logger/LogDerive.tla",
+         "TLA+ memory model of Go slice aliasing for the handlers' preformatted buffers (clone with/without Clip, append in place "
+         "or into a new array of any capacity); TLC checks View(node) = own chain for all derivation trees and rejects NoClip; "
+         "TLC-simulated derivation histories are replayed on Nano/Text/JSON and each logged line is compared with the isolated "
+         "replay of the chain the spec attributes to the node",
+         "TLC-exhaustive over all trees <= 4/5 derived nodes x realloc capacities; G binding on real loggers in history order and with "
+         "concurrent sibling derivation, attribute sizes chosen to leave spare capacity; second oracle With(A);call(B) = call(A++B)",
+         "timestamps masked; addSource off", "5/C03"),
 }
 
 NOT_BUILT_REASON = "check not built yet in this session (see DESIGN.md section 5 for the planned TLA+ spec and binding)"
